@@ -781,6 +781,9 @@ def call_builtin(self, name, args, kwargs, st, node):
         return
     if name == "next":
         x = a[0]
+        if isinstance(x, Val) and isinstance(x.t, Obj) and len(a) == 1 and self.reg.find_method(x.t.cls, "__next__") is not None:
+            yield from self.call_contract(self.reg.find_method(x.t.cls, "__next__"), [x], {}, st, node)
+            return
         view = self.view_of(x, st)
         if len(a) > 1:
             d = a[1]
